@@ -27,6 +27,7 @@ EmptyFn == [x \in {} |-> 0]
 InitM == [ lst   |-> EmptyFn,          \* listing: line number -> normalised statements
            src   |-> EmptyFn,          \* listing: line number -> statements as entered (for LIST)
            dir   |-> <<>>,             \* the direct line being executed
+           dirsrc |-> <<>>,            \* ... as entered
            dgen  |-> 0,                \* how many direct lines have been entered
            pairs |-> {},               \* WHILE/WEND mates of the program
            dpairs |-> {},              \* ... of the direct line
@@ -115,14 +116,14 @@ Store(m, node, v) ==
 Load(m, node) == Eval(node, St(m), m.dims, NoLocals, 0)
 
 \* ---- compile-time analysis, recomputed when the listing changes
-WithListing(m, lst) ==
-  LET flat == FlatProg(lst)  a == Analyze(flat, DOMAIN lst) IN
-  [m EXCEPT !.lst = lst, !.pairs = a.pairs, !.perr = a.perr, !.data = a.data]
+WithListing(m, lst, src) ==
+  LET flat == FlatProg(lst)  a == Analyze(flat, DOMAIN lst, src) IN
+  [m EXCEPT !.lst = lst, !.src = src, !.pairs = a.pairs, !.perr = a.perr, !.data = a.data]
 
 DataIndexOfLine(m, ln) == CountData(FlatProg(m.lst), 1, ln)
 
 \* an edit cancels the continuation and everything that points into the old program
-Edited(m, lst, src) == [WithListing(m, lst) EXCEPT !.src = src,
+Edited(m, lst, src) == [WithListing(m, lst, src) EXCEPT
                                               !.cont = NoCont, !.contx = FALSE, !.ctl = <<>>, !.nslots = 0, !.ctlx = FALSE,
                                               !.stale = (m.stale \/ m.ctl # <<>> \/ m.ctlx)]
 
@@ -287,11 +288,11 @@ Exec(m, p, s) ==
     [] s.k = "wend" -> [m EXCEPT !.pc = Mate(IF p.ln = Direct THEN m.dpairs ELSE m.pairs, p)]
     [] s.k = "end" ->
          \* continuable, unless nothing follows (a finished program cannot be continued)
-         \* (an END inside a THEN / ELSE part with nothing executable after it: whether the
+         \* (an END inside a THEN / ELSE part, or followed only by remarks and DATA: whether the
          \* program counts as finished is not fixed by the manual)
          IF InProgram(p)
          THEN GoReady([m EXCEPT !.cont = IF NothingLeft(m, Adv(p)) THEN NoCont ELSE Adv(p),
-                                !.contx = (NothingLeft(m, Adv(p)) /\ Len(p.path) > 1)])
+                                !.contx = (NothingLeft(m, Adv(p)) /\ (Len(p.path) > 1 \/ Resolve(m, Adv(p)).ln # PastEnd))])
          ELSE GoReady(m)
     [] s.k = "stop" ->
          LET m1 == Item(FreshLine(m), [k |-> "err", errs |-> {[code |-> EBreak, ln |-> IF InProgram(p) THEN p.ln ELSE -1]}]) IN
@@ -393,7 +394,8 @@ Exec(m, p, s) ==
              Lst(mm, from) == LET c == {n \in rng : n >= from} IN
                               IF c = {} THEN mm
                               ELSE LET n == CHOOSE n \in c : \A y \in c : n <= y IN
-                                   Lst(Item(mm, [k |-> "list", ln |-> n, text |-> ShowLine(n, m.src[n])]), n + 1)
+                                   Lst(Item(mm, [k |-> "list", ln |-> n, text |-> ShowLine(n, m.src[n]),
+                                                 cols |-> {<<e.c0, e.c1>> : e \in {x \in m.perr : x.ln = n}}]), n + 1)
          IN  [Lst(m, 0) EXCEPT !.pc = Adv(p)]
     [] s.k = "renum" ->
          IF InProgram(p) THEN Fail(m, p, Err(EIllegalDirect))
@@ -457,10 +459,10 @@ EnterLine(m, n, stmts) ==
 EnterDirect(m, stmts) ==
   LET code == Norm(stmts)
       flat == FlatDirect(code)
-      a == Analyze(flat, DOMAIN m.lst)
+      a == Analyze(flat, DOMAIN m.lst, [x \in {Direct} |-> stmts])
       derr == IF a.perr = {} /\ a.hasdata THEN {[code |-> EIllegalDirect, ln |-> -1]}
-              ELSE {[code |-> e.code, ln |-> -1] : e \in a.perr}
-      m0 == [m EXCEPT !.resp = <<>>, !.dir = code, !.dpairs = a.pairs, !.ltr = -1, !.dgen = @ + 1] IN
+              ELSE {[code |-> e.code, ln |-> -1, c0 |-> e.c0, c1 |-> e.c1] : e \in a.perr}
+      m0 == [m EXCEPT !.resp = <<>>, !.dir = code, !.dirsrc = stmts, !.dpairs = a.pairs, !.ltr = -1, !.dgen = @ + 1] IN
   IF derr # {} THEN GoReady(Item(FreshLine(m0), [k |-> "err", errs |-> derr]))
   ELSE [m0 EXCEPT !.mode = "run", !.pc = LineStart(Direct)]
 
